@@ -75,6 +75,15 @@ Definition peering2_ok (g : graph) (a b : str) (pa pb l : node) : bool :=
   (negb (str_eqb a b) || negb (ostr_eqb (nname pa) (nname pb))) &&
   name_free g KLink (nname l).
 
+(* the two ports of a peering alone (the state peer rolls back from when the link cannot be made) *)
+Definition ports2_ok (g : graph) (a b : str) (pa pb : node) : bool :=
+  fresh g (nid pa) && fresh g (nid pb) && negb (str_eqb (nid pa) (nid pb)) &&
+  new_node_ok pa && new_node_ok pb &&
+  cls_eqb (ncls pa) KCP && is_type pa sServicePort && cls_eqb (ncls pb) KCP && is_type pb sServicePort &&
+  cls_is g a KNS && cls_is g b KNS &&
+  sibling_free g a Connects KCP (nname pa) && sibling_free g b Connects KCP (nname pb) &&
+  (negb (str_eqb a b) || negb (ostr_eqb (nname pa) (nname pb))).
+
 (* rename / set_property / unset_property: only name, type (of a node element) and "Labels present" change *)
 Definition relabel (g : graph) (x : str) (f : node -> node) : graph := g_update g x f.
 (* f keeps id and class; the new type stays in the vocabulary; a new name does not clash in the scope of x *)
@@ -114,13 +123,26 @@ Definition remove_link_pre (g : graph) (name : str) : bool :=
   forallb (fun n => negb (cls_eqb (ncls n) KLink && ostr_eqb (nname n) (Some name)) ||
                     forallb (fun y => negb (typ_is g y sServicePort)) (first_nb g (nid n) Connects KCP)) (gnodes g).
 
+(* sub-interfaces hang off DedicatedPorts only (Interface.add_child_interface asserts it): every interface-to-interface
+   edge has a DedicatedPort end *)
+Definition subs_under_dedicated (g : graph) : bool :=
+  forallb (fun e => negb (cls_is g (ea e) KCP && cls_is g (eb e) KCP) ||
+                    typ_is g (ea e) sDedicatedPort || typ_is g (eb e) sDedicatedPort) (gedges g).
+
+(* peer(a, b) names its link <a>-<b>-link without looking whether that name is free *)
+Definition peer_link_free (g : graph) (a b : str) : bool :=
+  match name_of g a, name_of g b with
+  | Some an, Some bn => name_free g KLink (Some (an ++ dash ++ bn ++ S "-link"))
+  | _, _ => true
+  end.
+
 (* The calls whose preservation of WF is PROVED, each with its precondition on the state before the call:
    - enum arguments are members of the enum the API takes (regenerated member lists);
    - what excludes exactly the signature of a recorded defect: a new name that
      does not clash in the scope of the renamed element (relabel_ok); remove_link not on a peering link;
    - the documented domain of add_link (distinct interfaces, no service port).
    Every other call (false here) is covered by the wf_b evaluation on the implementation's snapshots only. *)
-Definition op_pre (g : graph) (o : op) : bool :=
+Definition op_pre_basic (g : graph) (o : op) : bool :=
   match o with
   | OAddNode _ _ ntype => mem_str ntype enum_node_types
   | OAddComponent _ _ _ _ _ _ _ => true
@@ -137,11 +159,26 @@ Definition op_pre (g : graph) (o : op) : bool :=
   | OAddSub _ _ _ _ => true
   | _ => false
   end.
+(* ... and the calls that make or take away a service port together with its link:
+   - connect_interface: for the library that checks the derived names (8b1a93d) and takes the port away again when
+     the link cannot be made (7b7379b); the interface is not itself a service port (documented domain);
+   - disconnect_interface, unpeer, remove_child_interface: sub-interfaces hang off DedicatedPorts only (what
+     add_child_interface enforces); disconnect_interface not on a service port;
+   - peer: two different services (peer(a, a) would give a two ports of one name) and a free link name. *)
+Definition op_pre (fl : flags) (g : graph) (o : op) : bool :=
+  match o with
+  | OConnect s i => fl_connect_names fl && fl_connect_undo fl && negb (typ_is g i sServicePort)
+  | ODisconnect s i => subs_under_dedicated g && negb (typ_is g i sServicePort)
+  | OPeer a b => negb (str_eqb a b) && peer_link_free g a b
+  | OUnpeer a b => subs_under_dedicated g
+  | ORemoveSub i name => subs_under_dedicated g
+  | _ => op_pre_basic g o
+  end.
 
 (* the library as it is at /repo HEAD: none of the proposed repairs C07-3..6 *)
-Definition flags_off : flags := mkFlags false false false false.
+Definition flags_off : flags := mkFlags false false false false false false.
 (* ... with all of them *)
-Definition flags_on : flags := mkFlags true true true true.
+Definition flags_on : flags := mkFlags true true true true true true.
 
 Definition hstep := (op * list str * list str)%type.   (* call, ids drawn from uuid4, iteration-order hint *)
 Fixpoint run_hist (sub : bool) (fl : flags) (g : graph) (h : list hstep) : graph :=
@@ -152,5 +189,5 @@ Fixpoint run_hist (sub : bool) (fl : flags) (g : graph) (h : list hstep) : graph
 Fixpoint pre_along (sub : bool) (fl : flags) (g : graph) (h : list hstep) : bool :=
   match h with
   | [] => true
-  | (o, dr, hi) :: r => op_pre g o && pre_along sub fl (fst (step sub fl g o dr hi)) r
+  | (o, dr, hi) :: r => op_pre fl g o && pre_along sub fl (fst (step sub fl g o dr hi)) r
   end.
